@@ -2,7 +2,10 @@ module verifharness
 
 go 1.23.0
 
-require github.com/go-task/task/v3 v3.0.0
+require (
+	github.com/go-task/task/v3 v3.0.0
+	mvdan.cc/sh/v3 v3.11.0
+)
 
 require (
 	dario.cat/mergo v1.0.0 // indirect
@@ -50,7 +53,6 @@ require (
 	golang.org/x/term v0.31.0 // indirect
 	gopkg.in/warnings.v0 v0.1.2 // indirect
 	gopkg.in/yaml.v3 v3.0.1 // indirect
-	mvdan.cc/sh/v3 v3.11.0 // indirect
 )
 
 replace github.com/go-task/task/v3 => /repo
